@@ -57,35 +57,39 @@ SkipFrom(s, p) == IF p <= Len(prog) /\ Skipped(s, prog[p]) THEN SkipFrom(s, p + 
 NextPc(s, p) == SkipFrom(s, p + 1)
 
 \* one action per syscall kind
-Do(k) == /\ Running
-         /\ prog[pc].k = k
-         /\ st' = Apply(st, prog[pc], env)
+At(k) == Running /\ prog[pc].k = k
+Step  == /\ st' = Apply(st, prog[pc], env)
          /\ pc' = NextPc(st', pc)
          /\ UNCHANGED <<ci, ei>>
-MakePrivate == Do("private")
-MountRoot   == Do("mountroot")
-Chdir       == Do("chdir")
-Mkdir       == Do("mkdir")
-Mknod       == Do("mknod")
-Mount       == Do("mount")
-Statfs      == Do("statfs")
-Remount     == Do("remount")
-PivotRoot   == Do("pivot")
-Umount      == Do("umount")
-Rmdir       == Do("rmdir")
-Symlink     == Do("symlink")
-MaskBind    == Do("maskbind")
-MaskStat    == Do("maskstat")
-MaskTmpfs   == Do("masktmp")
-MaskMkTemp  == Do("maskmk")
-MaskBindTmp == Do("maskbinde")
-MaskRemount == Do("maskro")
-MaskRmTemp  == Do("maskrm")
+MakePrivate == At("private")   /\ Step      \* mount("none", "/", MS_REC|MS_PRIVATE)
+MountRoot   == At("mountroot") /\ Step      \* mount("tmpfs", root, "tmpfs")
+Chdir       == At("chdir")     /\ Step
+Mkdir       == At("mkdir")     /\ Step      \* mkdirat per prefix of a target / old_root / link directories
+Mknod       == At("mknod")     /\ Step      \* mknodat for the last prefix of a file bind
+Mount       == At("mount")     /\ Step      \* mount(source, target, fstype, flags)
+Statfs      == At("statfs")    /\ Step      \* statfs(source) before the read-only bind remount
+Remount     == At("remount")   /\ Step      \* MS_REMOUNT|MS_BIND (read-only binds, and "/" at the end)
+PivotRoot   == At("pivot")     /\ Step
+Umount      == At("umount")    /\ Step      \* umount2("old_root", MNT_DETACH)
+Rmdir       == At("rmdir")     /\ Step
+Symlink     == At("symlink")   /\ Step
+MaskBind    == At("maskbind")  /\ Step      \* maskPath: bind /dev/null
+MaskStat    == At("maskstat")  /\ Step
+MaskTmpfs   == At("masktmp")   /\ Step      \* maskPath: read-only tmpfs over a directory
+MaskMkTemp  == At("maskmk")    /\ Step      \* maskPath without /dev/null: empty file ...
+MaskBindTmp == At("maskbinde") /\ Step      \* ... bound over the file ...
+MaskRemount == At("maskro")    /\ Step      \* ... read-only ...
+MaskRmTemp  == At("maskrm")    /\ Step      \* ... and unlinked
 
 Next == \/ MakePrivate \/ MountRoot \/ Chdir \/ Mkdir \/ Mknod \/ Mount \/ Statfs \/ Remount
         \/ PivotRoot \/ Umount \/ Rmdir \/ Symlink \/ MaskBind \/ MaskStat \/ MaskTmpfs
         \/ MaskMkTemp \/ MaskBindTmp \/ MaskRemount \/ MaskRmTemp
 Spec == Init /\ [][Next]_vars
+
+\* no action is vacuous: already over the tables of <= 1 entry every kind of syscall is executed
+\* (TLC -coverage says the same per named action, but costs 5x; VERIF_C05_COVERAGE=1 runs it)
+ASSUME NoVacuousAction ==
+  UNION { Final(c, e).seen : c \in ForkCfgsOf(1) \cup ContCfgsOf(1, ContOptsAll), e \in EnvsTwo } = OpKinds
 
 \* ------------------------------------------------------------------ invariants
 \* every table of the menu can be built: no syscall of the sequence fails fatally
